@@ -289,6 +289,9 @@ type recDAG struct {
 	root   string
 	// blocks whose Add returned an error to the caller (the importer)
 	addErrs []string
+	// the caller went on calling after an Add error (the transcription of FromFiles - Add until the
+	// first error - does not describe such a caller; only the property predicates are evaluated)
+	wentOn bool
 }
 
 func newRecDAG(inner adder.ClusterDAGService) *recDAG {
@@ -313,6 +316,9 @@ func (r *recDAG) note(n ipld.Node) {
 }
 
 func (r *recDAG) Add(ctx context.Context, n ipld.Node) error {
+	if len(r.addErrs) > 0 {
+		r.wentOn = true
+	}
 	r.note(n)
 	err := r.ClusterDAGService.Add(ctx, n)
 	if err != nil {
@@ -331,6 +337,9 @@ func (r *recDAG) AddMany(ctx context.Context, ns []ipld.Node) error {
 }
 
 func (r *recDAG) Finalize(ctx context.Context, root cid.Cid) (cid.Cid, error) {
+	if len(r.addErrs) > 0 {
+		r.wentOn = true
+	}
 	r.root = root.String()
 	return r.ClusterDAGService.Finalize(ctx, root)
 }
@@ -607,11 +616,21 @@ func doAdd(e *env, c *caseIn, t *tnode, shard bool, shardSize int64, sc script) 
 	dir := topDir(c, t)
 	var root cid.Cid
 	var err error
-	if c.Via == "multipart" {
-		mfr := files.NewMultiFileReader(dir, true)
-		root, err = a.FromMultipart(ctx, multipart.NewReader(mfr, mfr.Boundary()))
-	} else {
-		root, err = a.FromFiles(ctx, dir)
+	done := make(chan struct{})
+	go func() {
+		defer close(done)
+		if c.Via == "multipart" {
+			mfr := files.NewMultiFileReader(dir, true)
+			root, err = a.FromMultipart(ctx, multipart.NewReader(mfr, mfr.Boundary()))
+		} else {
+			root, err = a.FromFiles(ctx, dir)
+		}
+	}()
+	// the importer hands context.TODO() to DAGService.Add, so the deadline has to be enforced here
+	select {
+	case <-done:
+	case <-time.After(6 * time.Minute):
+		return rd, cid.Undef, fmt.Errorf("timeout: the add did not return")
 	}
 	rd.finish()
 	if ctx.Err() != nil && err != nil {
@@ -652,7 +671,8 @@ func runAdder(e *env, c *caseIn) (*record, error) {
 	}
 	o := e.observe(rd.names)
 	o.OK = err == nil
-	rec := &record{ID: c.ID, Mode: "V", Class: c.Class, In: in, Out: o, AddErrs: rd.addErrs, Layout: c.Layout}
+	rec := &record{ID: c.ID, Mode: "V", Class: c.Class, In: in, Out: o, AddErrs: rd.addErrs, Layout: c.Layout,
+		Partial: rd.wentOn}
 	if rec.Layout == "" {
 		rec.Layout = "balanced"
 	}
